@@ -1036,17 +1036,18 @@ int main(int argc, char** argv)
   verif::Spec spec; spec.property = "C20"; spec.harness = "c20_lifetime";
   spec.rule = "case = (types of the three slots, start configuration of 1-2 created containers); inside a case a BFS over all histories of "
     "create / clone(5 modes, also across DT/IT) / convert(same type, other DT, other IT, DV<->DVB) / move-assign (incl. self) / move-construct / "
-    "range-ctor / ctor+operator= from layout() / SparseLayout move-assign / clear / destroy / format, deduplicated on the implementation state "
-    "(per slot: _foreign_memory, _scalar_index, per array chunk class + offset + MemoryPool reference count + size + defined contents; unreferenced chunks). "
+    "range-ctor / raw-pointer co-owner ctor / ctor+operator= from layout() / SparseLayout move-assign / clear / destroy / format(value) / format() , deduplicated on the implementation state "
+    "(per slot: _foreign_memory, _scalar_index, _scalar_dt, per array chunk class + offset + MemoryPool reference count + size + defined contents; unreferenced chunks; plus a tag when the preceding operation was a no-op for the implementation state, so that no-ops are explored one level further instead of being pruned). "
     "Non-trivial = every case (all start with a container that owns arrays); hashed by (types, start).";
   spec.bounds_quick = "all histories up to depth 4 beyond the start configuration; 3 slots";
-  spec.bounds_thorough = "all histories up to depth 8 beyond the start configuration (counter cases_with_closed_state_space = cases whose reachable state space closed before the bound, i.e. complete for any depth); 3 slots";
+  spec.bounds_thorough = "all histories up to depth 6 beyond the start configuration (counter cases_with_closed_state_space = cases whose reachable state space closed before the bound, i.e. complete for any depth); 3 slots";
   spec.assumptions = {
     "reference model written in the harness: map array-id -> (#owning containers, element count, contents), op semantics transcribed from the documented clone modes / convert / move / range / layout contracts",
     "borrower contract: a ranged vector (_foreign_memory) holds no reference; histories that release the lender's array while a borrower is alive are excluded and counted",
     "forbidden calls (self-clone, non-deep clone / assign of a ranged source) must abort: executed in a forked child as leaves for the first BFS levels only",
     "excluded: self-convert, DV<->DVB convert of ranged / moved-from sources, layout()/range of moved-from containers, range with size 0",
     "values of arrays after clone(Layout/Allocate) and ctor(layout) are undefined: read (for ASan) but not compared and not part of the state key",
+    "public accessors (size, used_elements, rows/columns, elements(), operator()) are compared with the reference after every step, on alternate transitions as the very first access before any raw array is read; alternate same-type clones use the by-value overload",
     "Runtime::finalize's leak check is evaluated as MemoryPool::_pool.empty() after destroying all containers at every transition (workers leave through _exit)"
   };
   spec.max_fail_per_worker = 100000;
@@ -1080,7 +1081,7 @@ int main(int argc, char** argv)
     add(T_CSR_D64, T_CSR_D64, T_CSR_F64);
     add(T_BCSR_D64, T_BCSR_D64, T_BCSR_D64);
     add(T_SV_D64, T_SV_D64, T_SV_D64);
-    const int depth = c.thorough ? 8 : 4;
+    const int depth = c.thorough ? 6 : 4;
     for(const Case& cs : cases)
     {
       if(!c.want()) continue;
